@@ -98,3 +98,42 @@ Proof.
   rewrite sub_sub; [f_equal; ring | lia | lia | lia | lia].
 Qed.
 
+
+(* every stripped component has exactly the interior's size *)
+Theorem strip_ghosts_shape : forall sx sy sz gx gy gz nc data,
+  0 < gx -> 0 < gy -> 0 < gz ->
+  0 < sx - 2 * gx -> 0 < sy - 2 * gy -> 0 < sz - 2 * gz -> 0 <= nc ->
+  blen data = 8 * (sx * sy * sz * nc) ->
+  length (strip_ghosts sx sy sz gx gy gz nc data) = Z.to_nat nc /\
+  Forall (fun c => blen c = 8 * ((sx - 2 * gx) * ((sy - 2 * gy) * (sz - 2 * gz)))) (strip_ghosts sx sy sz gx gy gz nc data).
+Proof.
+  intros sx sy sz gx gy gz nc data Hgx Hgy Hgz Hbx Hby Hbz Hnc Hdata.
+  set (bx := sx - 2 * gx) in *. set (by_ := sy - 2 * gy) in *. set (bz := sz - 2 * gz) in *.
+  unfold strip_ghosts. split.
+  - rewrite map_length, zrange_length. f_equal. lia.
+  - apply Forall_map. apply Forall_forall. intros c Hc.
+    unfold zrange in Hc. apply in_map_iff in Hc. destruct Hc as (q & <- & Hq). apply in_seq in Hq.
+    assert (Hc : 0 <= 0 + Z.of_nat q < nc) by lia. set (c := 0 + Z.of_nat q) in *.
+    replace (gx =? 0) with false by lia.
+    unfold inner_range. replace (gy =? 0) with false by lia. replace (gz =? 0) with false by lia.
+    fold bx.
+    assert (Hrow : forall j0 k0, 0 <= j0 < sy -> 0 <= k0 < sz ->
+              blen (sub (8 * (gx + sx * (j0 + sy * (k0 + sz * c)))) (8 * bx) data) = 8 * bx).
+    { intros j0 k0 Hj0 Hk0.
+      assert (Hg1 : 0 <= gx < sx) by (unfold bx in Hbx; lia).
+      assert (Hg2 : 0 <= gx + bx - 1 < sx) by (unfold bx in *; lia).
+      destruct (idx_bound gx j0 k0 c sx sy sz nc Hg1 Hj0 Hk0 Hc) as [B1 B2].
+      destruct (idx_bound (gx + bx - 1) j0 k0 c sx sy sz nc Hg2 Hj0 Hk0 Hc) as [B3 B4].
+      apply blen_sub; [lia | lia |]. rewrite Hdata.
+      replace (sx * sy * sz * nc) with (sx * (sy * (sz * nc))) by ring. lia. }
+    rewrite (blen_concat_const _ (8 * bx * by_)).
+    + rewrite blen_map. unfold blen at 1. rewrite zrange_length. unfold bz. rewrite Z2Nat.id by lia. ring.
+    + apply Forall_map. apply Forall_forall. intros k0 Hk0.
+      unfold zrange in Hk0. apply in_map_iff in Hk0. destruct Hk0 as (r & <- & Hr). apply in_seq in Hr.
+      rewrite (blen_concat_const _ (8 * bx)).
+      * rewrite blen_map. unfold blen at 1. rewrite zrange_length. unfold by_. rewrite Z2Nat.id by lia. ring.
+      * apply Forall_map. apply Forall_forall. intros j0 Hj0.
+        unfold zrange in Hj0. apply in_map_iff in Hj0. destruct Hj0 as (t & <- & Ht). apply in_seq in Ht.
+        apply Hrow; lia.
+Qed.
+Print Assumptions strip_ghosts_shape.
